@@ -173,22 +173,14 @@ Fixpoint depth (a : atree) : nat :=
 
 Definition forest_depth (F : list atree) : nat := fold_right (fun c m => Nat.max (depth c) m) O F.
 
-(* sibling keys are pairwise different, at every level below a node *)
+(* sibling keys are pairwise different, at every level *)
 Fixpoint keys_unique (a : atree) : Prop :=
   match a with
-  | AT _ _ PNode cs => NoDup (map at_key cs) /\ fold_right (fun c P => keys_unique c /\ P) True cs
-  | AT _ _ (PLeaf _) _ => True
+  | AT _ _ _ cs => NoDup (map at_key cs) /\ fold_right (fun c P => keys_unique c /\ P) True cs
   end.
 
 Definition forest_keys_unique (F : list atree) : Prop :=
   NoDup (map at_key F) /\ fold_right (fun c P => keys_unique c /\ P) True F.
-
-(* leaves have no entries below them *)
-Fixpoint leaves_bare (a : atree) : Prop :=
-  match a with
-  | AT _ _ PNode cs => fold_right (fun c P => leaves_bare c /\ P) True cs
-  | AT _ _ (PLeaf _) cs => cs = []
-  end.
 
 (* ---------- trees as dictionaries: equal up to the order of siblings ---------- *)
 Inductive tree_equiv : tree -> tree -> Prop :=
@@ -198,5 +190,14 @@ Inductive tree_equiv : tree -> tree -> Prop :=
     Forall2 (fun a b => fst a = fst b /\ tree_equiv (snd a) (snd b)) cs' cs'' ->
     tree_equiv (Node cs) (Node cs'').
 
-(* ---------- which table is "the one with the highest sequence number" ---------- *)
-Definition max_seq (l : list ktable) : Z := fold_right (fun t m => Z.max (kt_seq t) m) (-1) l.
+(* ---------- key tables as the linker sees them ---------- *)
+(* every index names one table, and an entry's identity carries the index of its table *)
+Definition tables_wf (ts : tables) : Prop :=
+  NoDup (map fst ts) /\ forall idx l e, In (idx, l) ts -> In e l -> fst (l_id e) = idx.
+
+Definition strip_free (ts : tables) : tables :=
+  map (fun il : Z * list lentry => (fst il, filter (fun e => negb (l_free e)) (snd il))) ts.
+
+(* the registry HyperVFile.__init__ builds from the key tables in the order it meets them *)
+Definition registry (ts : list ktable) : list (Z * list ktable) :=
+  fold_left (fun reg t => register t reg) ts [].
